@@ -479,7 +479,165 @@ class Program:
             fn = dotted(node.func)
             if fn and fn[-1] in ("dict",) and not node.args:
                 return {k.arg: self.fold(module, k.value, func) for k in node.keywords if k.arg}
+            if fn and fn[-1] in ("dict",) and len(node.args) == 1 and not node.keywords:
+                v = self.fold(module, node.args[0], func)
+                if isinstance(v, dict):
+                    return dict(v)
+            # a module-level table built by a small pure helper of the same package (NAME = _make_attrs("role", "text", padded=False)):
+            # the helper is evaluated on literal arguments by a restricted interpreter (assignments, dict item stores, if on foldable tests, return)
+            r = self.resolve_expr(module, node.func, func) if isinstance(node.func, (ast.Name, ast.Attribute)) else None
+            if isinstance(r, FuncInfo) and r.cls is None:
+                v = self._eval_pure_helper(r, node, module, func)
+                if v is not None:
+                    return v
+        if isinstance(node, ast.Compare) and len(node.ops) == 1:
+            a, b = self.fold(module, node.left, func), self.fold(module, node.comparators[0], func)
+            if not isinstance(a, Sym) and not isinstance(b, Sym):
+                try:
+                    op = node.ops[0]
+                    if isinstance(op, ast.Eq):
+                        return a == b
+                    if isinstance(op, ast.NotEq):
+                        return a != b
+                    if isinstance(op, ast.In):
+                        return a in b
+                    if isinstance(op, ast.NotIn):
+                        return a not in b
+                    if isinstance(op, ast.Is):
+                        return a is b
+                    if isinstance(op, ast.IsNot):
+                        return a is not b
+                except Exception:  # noqa: BLE001
+                    pass
+        if isinstance(node, ast.UnaryOp) and isinstance(node.op, ast.Not):
+            v = self.fold(module, node.operand, func)
+            if isinstance(v, bool):
+                return not v
         return Sym(sym_name or "expr")
+
+    def _eval_pure_helper(self, h, call, module, func, depth=0):
+        """value returned by h(<foldable arguments>) when h's body is: local assignments, `d[k] = v` / `d.update({...})` on a local dict, `if` on tests that fold
+        to a bool, `return <expr>`; None when anything else occurs"""
+        if depth > 2 or any(isinstance(a, ast.Starred) for a in call.args) or any(k.arg is None for k in call.keywords):
+            return None
+        a = h.node.args
+        if a.vararg or a.kwarg:
+            return None
+        pos = [x.arg for x in a.posonlyargs + a.args]
+        kwonly = [x.arg for x in a.kwonlyargs]
+        env = {}
+        for prm, arg in zip(pos, call.args):
+            env[prm] = self.fold(module, arg, func)
+        for k in call.keywords:
+            if k.arg not in pos + kwonly:
+                return None
+            env[k.arg] = self.fold(module, k.value, func)
+        defaults = dict(zip(pos[len(pos) - len(a.defaults):], a.defaults))
+        defaults.update({n_: d for n_, d in zip(kwonly, a.kw_defaults) if d is not None})
+        for prm in pos + kwonly:
+            if prm not in env:
+                if prm not in defaults:
+                    return None
+                env[prm] = self.fold(h.module, defaults[prm], h)
+        if len(call.args) > len(pos):
+            return None
+        outer = self
+
+        class Stop(Exception):
+            pass
+
+        def ev(e):
+            if isinstance(e, ast.Name) and e.id in env:
+                return env[e.id]
+            if isinstance(e, ast.Dict):
+                out = {}
+                for k, v in zip(e.keys, e.values):
+                    if k is None:
+                        sub = ev(v)
+                        if not isinstance(sub, dict):
+                            raise Stop()
+                        out.update(sub)
+                    else:
+                        out[ev(k)] = ev(v)
+                return out
+            if isinstance(e, (ast.Tuple, ast.List)):
+                vals = [ev(x) for x in e.elts]
+                return tuple(vals) if isinstance(e, ast.Tuple) else vals
+            if isinstance(e, ast.BoolOp):
+                vals = [ev(x) for x in e.values]
+                if any(isinstance(v, Sym) for v in vals):
+                    raise Stop()
+                return all(vals) if isinstance(e.op, ast.And) else any(vals)
+            if isinstance(e, ast.UnaryOp) and isinstance(e.op, ast.Not):
+                v = ev(e.operand)
+                if isinstance(v, Sym):
+                    raise Stop()
+                return not v
+            if isinstance(e, ast.Compare) and len(e.ops) == 1:
+                l, r = ev(e.left), ev(e.comparators[0])
+                if isinstance(l, Sym) or isinstance(r, Sym):
+                    raise Stop()
+                op = e.ops[0]
+                table = {ast.Eq: lambda: l == r, ast.NotEq: lambda: l != r, ast.In: lambda: l in r, ast.NotIn: lambda: l not in r, ast.Is: lambda: l is r, ast.IsNot: lambda: l is not r}
+                if type(op) in table:
+                    return table[type(op)]()
+                raise Stop()
+            if isinstance(e, ast.IfExp):
+                t = ev(e.test)
+                if isinstance(t, Sym):
+                    raise Stop()
+                return ev(e.body) if t else ev(e.orelse)
+            if isinstance(e, ast.Call) and isinstance(e.func, ast.Name) and e.func.id == "dict" and len(e.args) <= 1:
+                base = ev(e.args[0]) if e.args else {}
+                if not isinstance(base, dict):
+                    raise Stop()
+                out = dict(base)
+                out.update({k.arg: ev(k.value) for k in e.keywords if k.arg})
+                return out
+            if any(isinstance(x, ast.Name) and x.id in env for x in ast.walk(e)):
+                raise Stop()
+            return outer.fold(h.module, e, h)
+
+        def run(stmts):
+            for st in stmts:
+                if isinstance(st, ast.Expr) and isinstance(st.value, ast.Constant):
+                    continue
+                if isinstance(st, ast.Assign) and len(st.targets) == 1 and isinstance(st.targets[0], ast.Name):
+                    env[st.targets[0].id] = ev(st.value)
+                elif isinstance(st, ast.Assign) and len(st.targets) == 1 and isinstance(st.targets[0], ast.Subscript) and isinstance(st.targets[0].value, ast.Name) \
+                        and isinstance(env.get(st.targets[0].value.id), dict):
+                    env[st.targets[0].value.id][ev(st.targets[0].slice)] = ev(st.value)
+                elif isinstance(st, ast.Expr) and isinstance(st.value, ast.Call) and isinstance(st.value.func, ast.Attribute) and st.value.func.attr == "update" \
+                        and isinstance(st.value.func.value, ast.Name) and isinstance(env.get(st.value.func.value.id), dict):
+                    upd = {}
+                    if st.value.args:
+                        upd = ev(st.value.args[0])
+                        if not isinstance(upd, dict):
+                            raise Stop()
+                    upd = dict(upd)
+                    upd.update({k.arg: ev(k.value) for k in st.value.keywords if k.arg})
+                    env[st.value.func.value.id].update(upd)
+                elif isinstance(st, ast.If):
+                    t = ev(st.test)
+                    if isinstance(t, Sym):
+                        raise Stop()
+                    r_ = run(st.body if t else st.orelse)
+                    if r_ is not None:
+                        return r_
+                elif isinstance(st, ast.Return):
+                    return ("ret", ev(st.value) if st.value is not None else None)
+                elif isinstance(st, ast.Pass):
+                    continue
+                else:
+                    raise Stop()
+            return None
+        try:
+            r_ = run(h.node.body)
+        except Stop:
+            return None
+        except Exception:  # noqa: BLE001
+            return None
+        return r_[1] if r_ else None
 
 
 def dotted(node):
